@@ -460,11 +460,13 @@ func (a *An) currentEvents() map[string][]string {
 				if idx < len(args) {
 					v = a.C.Term(args[idx])
 				}
-				o := a.C.alias(a.C.owner(f))
-				if cnt[o] == nil {
-					cnt[o] = map[string]int{}
+				// a new helper raises on behalf of the functions that call it (each of them, when it is shared)
+				for _, o := range a.ownersOf(f, 0) {
+					if cnt[o] == nil {
+						cnt[o] = map[string]int{}
+					}
+					cnt[o][kind+":"+v]++
 				}
-				cnt[o][kind+":"+v]++
 			}
 		}
 	}
